@@ -5,6 +5,7 @@
 -/
 import WowVerif.Model.C03Codec
 import WowVerif.Lemmas.C03
+import WowVerif.Lemmas.C03Sparse
 namespace Wv.C03
 open Wv Wv.Codec
 
@@ -121,6 +122,36 @@ theorem sparse_decode_tokens (toks : List Tok) (h : ∀ t ∈ toks, t.ok) (hne :
        UInt8.ofNat ((toks.flatMap Tok.out).length / 256 % 256) :: UInt8.ofNat ((toks.flatMap Tok.out).length % 256) ::
        toks.flatMap Tok.enc) expected = some (toks.flatMap Tok.out) :=
   Codec.sparse_decode_tokens toks h hne expected hl h32
+
+/-- SPARSE CODEC INVERTS EXACTLY (in-tree compressor and decoder, sparse.rs): for every non-empty input below 4 GiB
+    the decoder returns the compressor's input, whatever size bound ≥ its length the reader passes.
+    `sparseCompress` is the model of `sparse::compress` (scan, StormLib's 0x81 quirk, zero-run splitting, tail
+    flush), compared byte for byte with the implementation on every run. -/
+theorem sparse_roundtrip (d : Bytes) (hne : d ≠ []) (h32 : d.length < 2 ^ 32) (expected : Nat)
+    (he : d.length ≤ expected) : sparseDecompress (sparseCompress d) expected = some d :=
+  Codec.sparse_roundtrip d hne h32 expected he
+
+/-- the excluded input: the bare codec does not invert the empty input (4 header bytes < the decoder's minimum of 5) … -/
+theorem sparse_empty_bare : ∀ n, sparseDecompress (sparseCompress []) n = none := Codec.sparse_empty.2
+
+/-- … which the front end never stores framed: through `compress`/the reader EVERY input below 4 GiB comes back,
+    the empty one included -/
+theorem sparse_stored_roundtrip (dec : UInt8 → Bytes → Nat → Option Bytes) (m : UInt8)
+    (hdec : ∀ e n, dec m e n = sparseDecompress e n) (d : Bytes) (h32 : d.length < 2 ^ 32) :
+    unframe dec (frame m d (sparseCompress d)) d.length = some d := by
+  unfold frame unframe
+  by_cases h : 1 + (sparseCompress d).length ≥ d.length
+  · simp [h]
+  · have hl : (m :: sparseCompress d).length < d.length := by simp only [List.length_cons]; omega
+    rw [if_neg h, if_pos hl]
+    have hne : d ≠ [] := by
+      intro e; subst e; simp at h
+    simp only [hdec]
+    exact Codec.sparse_roundtrip d hne h32 d.length (Nat.le_refl _)
+
+/-- non-vacuity: a concrete input with a 3-zero run, an isolated zero and a zero tail -/
+example : sparseCompress [7, 0, 0, 0, 9, 0, 8, 0, 0] = [0, 0, 0, 9, 0x80, 7, 0, 0x82, 9, 0, 8, 0x7F] := by decide
+example : sparseDecompress (sparseCompress [7, 0, 0, 0, 9, 0, 8, 0, 0]) 9 = some [7, 0, 0, 0, 9, 0, 8, 0, 0] := by decide
 
 /-- which selectors the compressor supports at all (LZMA, single methods with a compressor, ADPCM + ≤ 1 method) -/
 theorem selector_examples :
